@@ -394,6 +394,21 @@ class PrimMixin:
     def p_str_strip(self, args, kw, st, fr, node):
         return args[0].strip(*args[1:])
 
+    def p_str_lstrip(self, args, kw, st, fr, node):
+        if not isinstance(args[0], str):
+            raise Unsupported("lstrip of a symbolic string", node)
+        return args[0].lstrip(*args[1:])
+
+    def p_str_rstrip(self, args, kw, st, fr, node):
+        if not isinstance(args[0], str):
+            raise Unsupported("rstrip of a symbolic string", node)
+        return args[0].rstrip(*args[1:])
+
+    def p_str_replace(self, args, kw, st, fr, node):
+        if not all(isinstance(a, str) for a in args[:3]):
+            raise Unsupported("replace on a symbolic string", node)
+        return args[0].replace(*args[1:])
+
     def p_str_format(self, args, kw, st, fr, node):
         return Opaque("formatted-string")
 
@@ -577,14 +592,14 @@ class PrimMixin:
         return tuple(h.fields.keys())
 
     def p_builtin_field_type(self, args, kw, st, fr, node):
-        h = st.get(args[0])
+        h = args[0].h if hasattr(args[0], "h") else st.get(args[0])
         ft = h.ftype.get(args[1])
         if ft is None:
             raise SpecError("field %r has no recorded type" % (args[1],))
         return ft.code
 
     def p_builtin_field_subshape(self, args, kw, st, fr, node):
-        h = st.get(args[0])
+        h = args[0].h if hasattr(args[0], "h") else st.get(args[0])
         v = h.fshape.get(args[1])
         if v is None:
             raise SpecError("field %r has no recorded sub-array shape" % (args[1],))
@@ -622,6 +637,11 @@ class PrimMixin:
             return v          # immutable values: a deep copy is indistinguishable
         if isinstance(v, Ref) and isinstance(st.get(v), HList):
             return st.alloc(HList([self.p_builtin_copy_deepcopy([x], {}, st, fr, node) for x in st.get(v).items]))
+        if isinstance(v, Ref) and isinstance(st.get(v), HObj):
+            o = st.get(v)
+            return st.alloc(HObj(o.cls, {k: self.p_builtin_copy_deepcopy([x], {}, st, fr, node) for k, x in o.fields.items()},
+                                 fresh=True,
+                                 items={k: self.p_builtin_copy_deepcopy([x], {}, st, fr, node) for k, x in o.items.items()}))
         raise Unsupported("deepcopy of %s" % kind_of(v), node)
 
     p_copy_deepcopy = p_builtin_copy_deepcopy
